@@ -572,6 +572,12 @@ func TestIdleInvokerRandom(t *testing.T) {
 					cancel()
 					return grpcClass(ii.Acquire(ctx))
 				})
+				if !ok {
+					// The lock is gone: the calls in flight cannot
+					// finish. They are abandoned.
+					close(block)
+					break
+				}
 				second := make(chan error, 1)
 				go func() { second <- ii.Acquire(ctxBG) }()
 				time.Sleep(time.Millisecond)
